@@ -67,6 +67,9 @@ _iso8601_re = [
     + r"(:(?P<second>\d{2}))?"
     + r"(\.(?P<fracsecond>\d+))?"
     + r"(?P<tz>[+-](?P<tzhour>\d{2})(:(?P<tzmin>\d{2}))?|Z)?)?"
+    # the whole string must be a date: a date-like prefix of another format
+    # (e.g. the year of "2004-j\u00falius-13T9:15-05:00") is not an ISO 8601 date
+    + r"$"
     for tmpl in _iso8601_tmpl
 ]
 _iso8601_matches = [re.compile(regex).match for regex in _iso8601_re]
